@@ -108,7 +108,7 @@ def ed_cases(tier, seed):
             # indices that sit only on a delta are target indices
             on_tensor = {x for t in tensors for x in t}
             targets = sorted(set(targets) | {x for x in allidx if x not in on_tensor})
-        yield {"deltas": deltas, "tensors": tensors, "targets": targets}
+        yield {"deltas": deltas, "tensors": tensors, "targets": targets, "second_term": rng.random() < 0.3}
 
 
 def build_term(case):
@@ -133,6 +133,9 @@ def ed_check(case):
     idx, term = build_term(case)
     if term is S.Zero:
         return True, "term vanishes"
+    if case.get("second_term") and case["targets"]:
+        # a sum of two terms with explicitly given target indices
+        term = term + NonSymmetricTensor("Zsum", tuple(idx[k] for k in case["targets"]))
     if case["targets"] is None:
         targets = einstein_targets(term)
         res = evaluate_deltas(term)
